@@ -469,7 +469,7 @@ fn large_n(m: usize) -> u64 {
 fn large_sizes(ctx: &Ctx, base: u64) -> u64 {
     let mut sizes: Vec<usize> = vec![255, 256, 257, 1000, 4097, 50_000, 65_535, 65_536, 65_537, 1_000_003, 3 << 20];
     if !ctx.quick() {
-        sizes.extend_from_slice(&[(1 << 24) + 1, 5 << 22]);
+        sizes.extend_from_slice(&[(1 << 22) + 1, 5 << 20]);
     }
     let mut cases = 0;
     macro_rules! go {
@@ -705,8 +705,8 @@ fn empty_stream_cases(ctx: &Ctx, stats: &mut Vec<Value>) -> u64 {
 }
 
 pub fn run(ctx: &Ctx) -> i32 {
-    // a watched call that runs for more than 60 s is a non-terminating finish (the largest legitimate call, a stream of 2.6e6
-    // items into 2e7 bins, takes about 10 s on an idle machine)
+    // a watched call that runs for more than 60 s is a non-terminating finish (the largest legitimate call, a stream of 6.5e5
+    // items into 5e6 bins, takes a few seconds on an idle machine)
     let ctx_ptr: &'static Ctx = unsafe { &*(ctx as *const Ctx) };
     start_watchdog(Duration::from_secs(60), move |desc| {
         ctx_ptr.violation(
@@ -845,7 +845,7 @@ pub fn run(ctx: &Ctx) -> i32 {
         "spaces": spaces,
         "direct_occupancy_patterns": tot_patterns,
         "single_item_scan": {"per_sketcher": scan_info, "what": "every identifier of a block of 2^25 (2^27) for the f32 and 2^20 (2^22) for the f64 sketchers populates exactly one bin of a fresh two-bin sketcher with (a value in [0,1), its hash); the items whose value is exactly 0.0 are then streamed alone and with 40 other items at m in {1,7,64}: they own their bin"},
-        "large_sizes": {"cases": n_large, "what": "m in {255,256,257,1000,4097,50000,65535,65536,65537,1000003,3*2^20} (thorough: 2^24+1, 5*2^22), 4 sketcher types, one stream of min(max(2^17, m/8), 4m) consecutive identifiers: sketch_slice = item-wise + end_sketch on the whole internal state, and the finishing-edge invariants; one stream per size, not exhaustive"},
+        "large_sizes": {"cases": n_large, "what": "m in {255,256,257,1000,4097,50000,65535,65536,65537,1000003,3*2^20} (thorough: 2^22+1, 5*2^20), 4 sketcher types, one stream of min(max(2^17, m/8), 4m) consecutive identifiers: sketch_slice = item-wise + end_sketch on the whole internal state, and the finishing-edge invariants; one stream per size, not exhaustive"},
         "empty_stream_cases": empty_stats,
     });
     ctx.finish(
